@@ -101,7 +101,8 @@ def freshOf (p : Provider) : R Ctx :=
     | .error v => .error v
     | .ok (pe, pl) =>
       .ok { provider := p, hasProvider := true, createEvent := ce, create := c, creators := cr, privilegedCreators := pr,
-            plEvent := pe, pl := pl, jrEvent := (jrInfo p.joinRules).1, joinRule := (jrInfo p.joinRules).2 }
+            plEvent := pe, pl := pl, plErr := plErrOf p.powerLevels,
+            jrEvent := (jrInfo p.joinRules).1, joinRule := (jrInfo p.joinRules).2 }
 
 theorem update_empty (p : Provider) : ({} : Ctx).update p = freshOf p := by
   unfold Ctx.update freshOf Ctx.switchProvider Ctx.refreshCreate
@@ -117,12 +118,20 @@ theorem update_empty (p : Provider) : ({} : Ctx).update p = freshOf p := by
       obtain ⟨pe, pl⟩ := r2
       simp only [Ctx.refreshJR, Option.isNone_none, Bool.true_or, if_true]
 
+/-- the power levels in force when the room has no power-levels event (`NewPowerLevelContentFromAuthEvents`) -/
+def noEventLevels (creator : Bytes) : PowerLevels :=
+  { PowerLevels.defaults with users := [(creator, 9007199254740991)], stateDefault := 50 }
+
 /-- facts about a freshly built context that the rules rely on -/
 structure Fresh (p : Provider) (c : Ctx) : Prop where
   provider : c.provider = p
   noCreate : c.createEvent = none → c.create.roomID = []
   create : ∀ ce, c.createEvent = some ce →
     ∃ cc, decodeCreateContent ce.content = some cc ∧ c.creators = ce.sender :: cc.additionalCreators
+  /-- `powerLevelsErr` is a function of the provider's power-levels event -/
+  plErr : c.plErr = plErrOf p.powerLevels
+  /-- the cached power-levels part is what `plInfo` computes -/
+  plInfo : plInfo p.powerLevels (senderOfOpt c.createEvent) = .ok (c.plEvent, c.pl)
 
 theorem fresh_of {p : Provider} {c : Ctx} (h : freshOf p = .ok c) : Fresh p c := by
   unfold freshOf at h
@@ -138,7 +147,7 @@ theorem fresh_of {p : Provider} {c : Ctx} (h : freshOf p = .ok c) : Fresh p c :=
       simp only [hpi] at h
       cases h
       unfold createInfo at hci
-      refine ⟨rfl, ?_, ?_⟩
+      refine ⟨rfl, ?_, ?_, rfl, hpi⟩
       · intro hn
         simp only at hn
         subst hn
@@ -218,7 +227,7 @@ abbrev lib := Departures.library
 
 theorem userPowerLevel_eq (c : Ctx) (u : Bytes) (h : c.createEvent.isSome = true) :
     c.userPowerLevel u = .ok (powerOf lib c u) := by
-  unfold Ctx.userPowerLevel powerOf
+  unfold Ctx.userPowerLevel powerOf powerOfWith
   have hd : lib.d2_creatorMaxLevel = true := rfl
   cases hce : c.createEvent with
   | none => simp [hce] at h
@@ -336,11 +345,17 @@ theorem rowIs_of {ver : Bytes} {row : VGen.VersionRow} (h : versionRow? ver = so
   simp only [Prod.mk.injEq] at hcols
   exact ⟨hcols.1, hcols.2.1, hcols.2.2.1, hcols.2.2.2.1, hcols.2.2.2.2.1, hcols.2.2.2.2.2, hf.1, hf.2⟩
 
+/-- the sender's level in the notification check of `CheckPowerLevelEvent`: read from the old content, except that
+    creators are privileged where the event's room version says so -/
+def notifLevel (c : Ctx) (priv : Bool) (old : PowerLevels) (u : Bytes) : Int :=
+  if priv && c.creators.contains u then creatorPowerLevel else old.userLevel u
+
 theorem checkPowerLevelEvent_eq (c : Ctx) (p : Provider) (hf : Fresh p c) (e : Event) (row : VGen.VersionRow) (sv : SpecVersion)
     (hrow : e.row = some row) (hr : RowIs row sv) (hce : c.createEvent.isSome = true) (old new : PowerLevels) :
     accepts (c.checkPowerLevelEvent e old new) =
-      some ((!sv.notifications || checkNotificationLevels e.sender old new) && (!sv.creators || ruleNoCreatorInUsers c new)) := by
-  unfold Ctx.checkPowerLevelEvent
+      some ((!sv.notifications || checkNotificationLevels (notifLevel c sv.creators old e.sender) old new)
+            && (!sv.creators || ruleNoCreatorInUsers c new)) := by
+  unfold Ctx.checkPowerLevelEvent notifLevel
   simp only [hrow, hr.pl]
   have e1 : ("checkPowerLevelEventV3" == "checkPowerLevelEventV1") = false := by decide
   have e2 : ("checkPowerLevelEventV3" == "checkPowerLevelEventV2") = false := by decide
@@ -348,21 +363,203 @@ theorem checkPowerLevelEvent_eq (c : Ctx) (p : Provider) (hf : Fresh p c) (e : E
   cases hc : sv.creators with
   | true =>
     have hn := hr.notif hc
-    simp only [hn, if_true, e1, e2, beq_self_eq_true, Bool.false_eq_true, if_false, Bool.not_true, Bool.false_or]
-    cases hcn : checkNotificationLevels e.sender old new with
-    | false => simp
-    | true =>
-      cases hcev : c.createEvent with
-      | none => simp [hcev] at hce
-      | some ce =>
-        obtain ⟨cc, hcc, hcr⟩ := hf.create ce hcev
-        simp only [hcc, Bool.not_true, Bool.false_eq_true, if_false, Bool.true_and, ruleNoCreatorInUsers, hcr]
+    simp only [hn, if_true, e1, e2, beq_self_eq_true, Bool.false_eq_true, if_false, Bool.not_true, Bool.false_or, Bool.true_and]
+    cases hcev : c.createEvent with
+    | none => simp [hcev] at hce
+    | some ce =>
+      obtain ⟨cc, hcc, hcr⟩ := hf.create ce hcev
+      simp only [hcc, hcr, ruleNoCreatorInUsers]
+      cases hcn : checkNotificationLevels
+          (if (ce.sender :: cc.additionalCreators).contains e.sender = true then creatorPowerLevel else old.userLevel e.sender) old new with
+      | false => simp
+      | true =>
         cases hany : (new.users.any fun kv => (ce.sender :: cc.additionalCreators).contains kv.fst) <;> simp
   | false =>
     cases hn : sv.notifications with
     | true =>
-      simp only [if_true, e3, beq_self_eq_true, Bool.false_eq_true, if_false, Bool.not_true, Bool.false_or, Bool.not_false, Bool.true_or, Bool.and_true]
+      simp only [if_true, e3, beq_self_eq_true, Bool.false_eq_true, if_false, Bool.not_true, Bool.false_or, Bool.not_false, Bool.true_or, Bool.and_true, Bool.false_and]
       split <;> simp_all
     | false => simp
+
+/-! ### notification levels (D11) and the sender's level -/
+
+theorem ruleNotifications_eq (L : Int) (old new : PowerLevels) :
+    ruleNotifications lib L old new = checkNotificationLevels L old new := by
+  unfold ruleNotifications checkNotificationLevels
+  have hd : lib.d11_notificationsGE = true := rfl
+  simp only [hd, if_true]
+  congr 1
+  funext k
+  by_cases h1 : new.notificationLevel k ≤ L <;> by_cases h2 : old.notificationLevel k < L <;>
+    simp [h1, h2] <;> omega
+
+/-- with no power-levels event loaded and no load error, the power levels in force are the no-event defaults -/
+theorem fresh_noPL {p : Provider} {c : Ctx} (hf : Fresh p c) (he : c.plErr = none) (hpe : c.plEvent = none) :
+    c.pl = noEventLevels (senderOfOpt c.createEvent) := by
+  have h1 := hf.plInfo
+  have h2 := hf.plErr
+  rw [he] at h2
+  unfold Auth.plInfo at h1
+  unfold plErrOf at h2
+  cases hp : p.powerLevels with
+  | none =>
+    rw [hp] at h1
+    simp only [Except.ok.injEq, Prod.mk.injEq] at h1
+    rw [← h1.2]; rfl
+  | some ev =>
+    rw [hp] at h1 h2
+    simp only at h1 h2
+    cases hpl : powerLevelsFromEvent ev with
+    | ok pl =>
+      rw [hpl] at h1
+      simp only [Except.ok.injEq, Prod.mk.injEq] at h1
+      rw [hpe] at h1
+      cases h1.1
+    | error v =>
+      rw [hpl] at h1 h2
+      cases v <;> simp at h1 h2
+
+theorem notifLevel_eq {p : Provider} {c : Ctx} (hf : Fresh p c) (hce : c.createEvent.isSome = true) (he : c.plErr = none)
+    (priv : Bool) (u : Bytes) : notifLevel c priv c.pl u = powerOfWith priv lib c u := by
+  unfold notifLevel powerOfWith
+  have hd : lib.d2_creatorMaxLevel = true := rfl
+  split
+  · rfl
+  · cases hpe : c.plEvent with
+    | some pe => simp
+    | none =>
+      rw [fresh_noPL hf he hpe]
+      cases hcev : c.createEvent with
+      | none => simp [hcev] at hce
+      | some ce =>
+        simp only [Option.isSome_none, Bool.false_eq_true, if_false, Option.map_some, senderOfOpt, noEventLevels,
+          PowerLevels.userLevel, mapGet, List.find?_cons, List.find?_nil]
+        by_cases hu : ce.sender = u
+        · subst hu; simp [creatorPowerLevel]
+        · have hb : (ce.sender == u) = false := by simpa using hu
+          simp [hb, PowerLevels.defaults]
+
+/-! ### integer-only levels (room version 10 and later) -/
+
+theorem decIntLevel_ok {d : Int} {v : JVal} (h : (decIntLevel d (some v)).err = false) : isIntegerLiteral v = true := by
+  unfold decIntLevel at h
+  unfold isIntegerLiteral
+  cases v with
+  | null => simp at h
+  | num lit =>
+    simp only [decInt64] at h
+    cases hp : parseInt64 lit with
+    | none => simp [hp] at h
+    | some n => simp [hp]
+  | _ => simp [decInt64] at h
+
+theorem decIntLevel_field {d : Int} {o : Option JVal} : (decIntLevel d o).err = false →
+    (match o with | none => true | some v => isIntegerLiteral v) = true := by
+  intro h
+  cases o with
+  | none => rfl
+  | some v => exact decIntLevel_ok h
+
+theorem decodeIntMap_ok {base : List (Bytes × Int)} {o : Option JVal} : (decodeIntMap base o).err = false →
+    (match o with | none => true | some v => isIntegerMap v) = true := by
+  intro h
+  cases o with
+  | none => rfl
+  | some v =>
+    unfold decodeIntMap at h
+    unfold isIntegerMap
+    cases v with
+    | obj m =>
+      simp only at h ⊢
+      rw [List.all_eq_true]
+      intro kv hkv
+      rw [Bool.eq_false_iff] at h
+      have : (decIntLevel 0 (some kv.2)).err = false := by
+        rw [Bool.eq_false_iff]
+        intro hc
+        apply h
+        rw [List.any_eq_true]
+        exact ⟨(kv.1, decIntLevel 0 (some kv.2)), List.mem_map.mpr ⟨kv, hkv, rfl⟩, hc⟩
+      exact decIntLevel_ok this
+    | _ => simp at h
+
+/-- **Soundness of the integer-only parser against the independent predicate**: whatever `parseIntegerPowerLevels`
+    accepts has an integer literal for every named level that is present, and objects of integer literals for `users`,
+    `events`, `notifications` when present — in particular no `null` anywhere a level belongs. -/
+theorem parseInteger_sound {c : Option JVal} {d p : PowerLevels} (h : parseIntegerPowerLevels c d = some p) :
+    integerContent c = true := by
+  unfold parseIntegerPowerLevels at h
+  unfold integerContent contentFields
+  cases c with
+  | none => cases h
+  | some v =>
+    cases v with
+    | null => rfl
+    | obj kvs =>
+      simp only at h ⊢
+      split at h
+      · cases h
+      · rename_i hne
+        simp only [Bool.or_eq_true, not_or, Bool.not_eq_true] at hne
+        obtain ⟨⟨⟨⟨⟨⟨⟨⟨⟨h1, h2⟩, h3⟩, h4⟩, h5⟩, h6⟩, h7⟩, h8⟩, h9⟩, h10⟩ := hne
+        simp only [namedLevelKeys, List.all_cons, List.all_nil, Bool.and_true, Bool.and_eq_true]
+        exact ⟨⟨decIntLevel_field h1, decIntLevel_field h2, decIntLevel_field h3, decIntLevel_field h4, decIntLevel_field h5,
+          decIntLevel_field h6, decIntLevel_field h7⟩, decodeIntMap_ok h8, decodeIntMap_ok h9, decodeIntMap_ok h10⟩
+    | _ => cases h
+
+/-! ### a power-levels auth event that cannot be read -/
+
+theorem powerLevelsFromEvent_int {e : Event} {row : VGen.VersionRow} (hrow : e.row = some row)
+    (hp : row.parsePowerLevelsFunc = "parseIntegerPowerLevels") (hi : integerContent e.content = false) :
+    powerLevelsFromEvent e = notAllowed := by
+  unfold powerLevelsFromEvent
+  simp only [hrow, hp, beq_self_eq_true, if_true]
+  cases hq : parseIntegerPowerLevels e.content PowerLevels.defaults with
+  | none => rfl
+  | some pl => rw [parseInteger_sound hq] at hi; cases hi
+
+/-- the spec's reading of a power-levels event agrees with the model's parser -/
+theorem newPowerLevels_eq {e : Event} {row : VGen.VersionRow} {sv : SpecVersion} (hrow : e.row = some row) (hri : RowIs row sv) :
+    newPowerLevels lib sv e = (match powerLevelsFromEvent e with | .ok pl => some pl | .error _ => none) := by
+  unfold newPowerLevels
+  have hd : lib.d15_pythonInt = true := rfl
+  simp only [hd, if_true]
+  cases hi : sv.integerLevels with
+  | false => simp only [Bool.false_and, Bool.false_eq_true, if_false]; cases powerLevelsFromEvent e <;> rfl
+  | true =>
+    cases hc : integerContent e.content with
+    | true => simp only [Bool.not_true, Bool.and_false, Bool.false_eq_true, if_false]; cases powerLevelsFromEvent e <;> rfl
+    | false =>
+      have hp : row.parsePowerLevelsFunc = "parseIntegerPowerLevels" := by rw [hri.parse, hi]; rfl
+      rw [powerLevelsFromEvent_int hrow hp hc]
+      simp [notAllowed]
+
+/-! ### the entry point's `Valid()` test and the checker's own -/
+
+/-- **The check of a freshly created context accepts exactly what the standalone `Allowed` accepts** (no side
+    condition): since 32272dd `allowerContext.allowed` makes the `Valid()` test itself, so the entry point's own test
+    changes nothing.  (The two verdicts can differ in the error class only: auth events from different rooms AND an
+    unmodelled create / power-levels event.) -/
+theorem allowedFresh_ok_iff_noValid (e : Event) (p : Provider) (sig : Bool) :
+    allowedFresh e p sig = .ok ↔ allowedFreshNoValid e p sig = .ok := by
+  unfold allowedFresh allowedFreshNoValid
+  by_cases hv : (!p.valid) = true
+  · simp only [hv, if_true]
+    rw [update_empty]
+    constructor
+    · intro h; cases h
+    · intro h
+      cases hf : freshOf p with
+      | error v =>
+        obtain ⟨w, rfl⟩ := freshOf_error hf
+        rw [hf] at h
+        cases h
+      | ok c =>
+        rw [hf] at h
+        simp only at h
+        unfold Ctx.allowed at h
+        rw [(fresh_of hf).provider, hv] at h
+        simp [notAllowed] at h
+  · simp only [hv, if_false, Bool.false_eq_true]
 
 end V.AuthRules
